@@ -770,3 +770,13 @@ CONTROLS['C18'] += [
     C('groupby returns the groups sorted by their id (GB)',
       expr_replace('core', 'Dataset.groupby', 'groups.items()', 'sorted(groups.items())'), 'group-ids-are-never-ordered', tier='quick'),
 ]
+CONTROLS['C06'] += [
+    C('keyed single-thread prefetch bypasses the catch wrapper (C1)',
+      expr_replace('core', 'PrefetchDataset._single_thread_prefetch', 'input_dataset.items()', 'self.input_dataset.items()'),
+      'prefetches-the-wrapped-input', tier='quick'),
+]
+CONTROLS['C14'] += [
+    C('summary takes __name__ of the raw option (SB)',
+      expr_replace('core', 'PrefetchDataset.__iter__', 'catch_filter_exception.__name__', 'self.catch_filter_exception.__name__'),
+      'name-taken-of-the-tested-selection'),
+]
